@@ -792,8 +792,13 @@ func (c *Checker) checkRangePattern(node *ast.RangeLiteralNode, typ types.Type) 
 		)
 	}
 
-	c.checkCanMatch(typ, startType, node.Location())
-	node.SetType(startType)
+	rangeType := startType
+	if rangeType == nil {
+		// beginless range pattern eg. `..<5`
+		rangeType = endType
+	}
+	c.checkCanMatch(typ, rangeType, node.Location())
+	node.SetType(rangeType)
 	return node, types.Never{}
 }
 
